@@ -14,7 +14,7 @@
 #include <sys/syscall.h>
 #include <linux/futex.h>
 
-#define MAX_T 64
+#define MAX_T 256
 
 enum { T_FREE = 0, T_RUNNABLE, T_BLK_EPOLL, T_BLK_MUTEX, T_BLK_RW, T_BLK_JOIN, T_BLK_SLEEP, T_BLK_COND, T_DONE };
 static const char *state_names[] = {"free", "runnable", "epoll", "mutex", "rwlock", "join", "sleep", "cond", "done"};
@@ -33,11 +33,14 @@ typedef struct {
     void *arg;
     int64_t prio;
     int is_actor;
+    int lid;          /* logical thread id (creation order), what histories show */
+    int detached;
 } SimThread;
 
 static SimThread threads[MAX_T];
 static int nthreads;
-static __thread int my_tid;
+static __thread int my_tid;   /* slot index */
+static int next_lid;
 static uint64_t epoch;
 uint64_t sim_yield_count;
 uint64_t sim_switch_count;
@@ -63,7 +66,7 @@ static long futex(volatile int *addr, int op, int val) {
 }
 
 int sim_tid(void) {
-    return my_tid;
+    return threads[my_tid].lid;
 }
 
 uint64_t sim_sched_trace_hash(void) {
@@ -81,6 +84,8 @@ void sim_sched_init(void) {
     for (int i = 0; i < MAX_M; i++) rwtab[i].writer = -1;
     nthreads = 1;
     my_tid = 0;
+    next_lid = 1;
+    threads[0].lid = 0;
     threads[0].state = T_RUNNABLE;
     threads[0].pt = pthread_self();
     threads[0].prio = (int64_t)(sim_hash(sim_cfg.seed, 9001, 0, 0) >> 2);
@@ -157,7 +162,8 @@ static int is_candidate(int i) {
 static void dump_threads(char *buf, size_t n) {
     size_t off = 0;
     for (int i = 0; i < nthreads && off + 40 < n; i++)
-        off += (size_t) snprintf(buf + off, n - off, "%st%d=%s", i ? " " : "", i, state_names[threads[i].state]);
+        if (threads[i].state != T_FREE)
+            off += (size_t) snprintf(buf + off, n - off, "%st%d=%s", off ? " " : "", threads[i].lid, state_names[threads[i].state]);
 }
 
 /* choose who runs next. me_runnable: the caller may continue. returns tid. */
@@ -316,11 +322,11 @@ static void *trampoline(void *p) {
     my_tid = tid;
     wait_go();
     SimThread *me = &threads[tid];
-    sim_hist("!thread", "start %d", tid);
+    sim_hist("!thread", "start %d", me->lid);
     me->fn(me->arg);
     /* thread is finished: hand the baton on without waiting for it again */
-    sim_hist("!thread", "exit %d", tid);
-    me->state = T_DONE;
+    sim_hist("!thread", "exit %d", me->lid);
+    me->state = me->detached ? T_FREE : T_DONE;
     epoch++;
     sim_yield_count++;
     int to = pick(0);
@@ -331,10 +337,24 @@ static void *trampoline(void *p) {
 }
 
 int sim_spawn_thread(pthread_t *out, const pthread_attr_t *attr, void *(*fn)(void *), void *arg, int is_actor) {
-    if (nthreads >= MAX_T) sim_die(SIM_EXIT_HARNESS, "!harness", "too many threads");
-    int tid = nthreads++;
+    int tid = -1;
+    for (int i = 1; i < nthreads; i++) {
+        if (threads[i].state == T_FREE) {
+            tid = i;
+            break;
+        }
+    }
+    if (tid < 0) {
+        if (nthreads >= MAX_T) sim_die(SIM_EXIT_HARNESS, "!harness", "too many live threads");
+        tid = nthreads++;
+    }
     SimThread *t = &threads[tid];
     memset(t, 0, sizeof *t);
+    t->lid = next_lid++;
+    if (attr) {
+        int ds = 0;
+        if (pthread_attr_getdetachstate(attr, &ds) == 0 && ds == PTHREAD_CREATE_DETACHED) t->detached = 1;
+    }
     t->state = T_RUNNABLE;
     t->fn = fn;
     t->arg = arg;
@@ -343,13 +363,13 @@ int sim_spawn_thread(pthread_t *out, const pthread_attr_t *attr, void *(*fn)(voi
     pthread_t pt;
     int err = __real_pthread_create(&pt, attr, trampoline, (void *)(intptr_t) tid);
     if (err) {
-        nthreads--;
+        t->state = T_FREE;
         return err;
     }
     t->pt = pt;
     if (out) *out = pt;
     epoch++;
-    sim_hist("!thread", "create %d", tid);
+    sim_hist("!thread", "create %d", t->lid);
     return 0;
 }
 
@@ -371,6 +391,7 @@ int __wrap_pthread_join(pthread_t pt, void **ret) {
         threads[my_tid].waiting_on = (void *)(intptr_t) target;
         block(T_BLK_JOIN);
     }
+    threads[target].state = T_FREE;
     return __real_pthread_join(pt, ret);
 }
 
